@@ -3,6 +3,7 @@ import ZbossModel.Frame
 import ZbossModel.Frag
 import ZbossModel.Rx
 import ZbossModel.Link
+import ZbossModel.Dispatch
 /-! Dispatch of line-protocol operations to the executable model. -/
 namespace Zboss.Ops
 open Zboss Zboss.Crc
@@ -127,6 +128,47 @@ def handleLink : List String → Option String
     pure (";".intercalate logs ++ s!" | seq={r.1.rx.packSeq} now={r.1.now} q={r.1.queue.length} h={r.1.holder.isSome}")
   | _ => none
 
+def parseCmd (s : String) : Option Match.Cmd :=
+  match s.splitOn ":" with
+  | [ty, ps] => do
+    let ty ← ty.toNat?
+    let ps ← (if ps == "-" then some [] else (ps.splitOn ",").mapM fun x =>
+      if x == "_" then some none else x.toNat?.map some)
+    pure ⟨ty, ps⟩
+  | _ => none
+
+def showCmd (c : Match.Cmd) : String :=
+  s!"{c.ty}:" ++ (if c.params.isEmpty then "-" else
+    ",".intercalate (c.params.map fun | none => "_" | some v => toString v))
+
+def parseCmds (s : String) : Option (List Match.Cmd) := (s.splitOn "|").mapM parseCmd
+
+def parseDispEv (s : String) : Option Dispatch.Ev :=
+  match s.splitOn "/" with
+  | ["W", id, ps] => do pure (.waiter (← id.toNat?) (← parseCmds ps))
+  | ["B", id, ps] => do pure (.callback (← id.toNat?) (← parseCmds ps))
+  | ["X", id] => do pure (.cancel (← id.toNat?))
+  | ["R", c] => do pure (.receive (← parseCmd c))
+  | ["Z"] => some .settle
+  | _ => none
+
+def handleDispatch : List String → Option String
+  | ["match", p, c] => do
+    let p ← parseCmd p; let c ← parseCmd c
+    pure (if Match.matches p c then "1" else "0")
+  | ["dedup", ps] => do
+    let ps ← parseCmds ps
+    pure ("|".intercalate ((Match.dedup ps).map showCmd))
+  | "dispatch" :: evs => do
+    let evs ← evs.mapM parseDispEv
+    let r := Dispatch.runEvents [] evs
+    let show1 (o : Dispatch.Out) : String := match o with
+      | .resolved i c => s!"r{i}={showCmd c}"
+      | .called i c => s!"c{i}={showCmd c}"
+    pure (";".intercalate (r.2.map fun l => if l.isEmpty then "." else "+".intercalate (l.map show1)) ++
+      s!" | n={r.1.length}")
+  | _ => none
+
 def handle : List String → String
   | ["crc8", init, d] =>
     match parseHex init, parseHex d with
@@ -154,6 +196,9 @@ def handle : List String → String
       | none =>
         match handleLink toks with
         | some r => r
-        | none => "bad-op"
+        | none =>
+          match handleDispatch toks with
+          | some r => r
+          | none => "bad-op"
 
 end Zboss.Ops
